@@ -69,9 +69,17 @@ def rule_skip(env, shared):
                     good = False
             elif role == "pos" and e.info["op"] == "fetch_add" and Lc is not None:
                 k = m.canon(unref(e.args[1]))
-                p = CProver([], ev, e.ctx)
+                p = CProver([tuple(m.canon(x) if isinstance(x, tuple) else x for x in f) for f in env.event_facts(e)], ev, e.ctx)
+                # everything from a position that was read from the counter before (the counter only grows): LEN - load
+                rest_ok = False
+                for x in subterms(k):
+                    if x[0] == "bin" and x[1] == "Sub" and x[2] == Lc and x[3][0] == "atomic" and x[3][1] == "load" \
+                            and R.classify(x[3][2]) == ("pos", adt) and p.le(x, k):
+                        rest_ok = True
                 if p.le(Lc, k):
                     good = (e, "reservation form: reserves %s >= LEN positions" % fmt(k)[:60])
+                elif rest_ok:
+                    good = (e, "reservation form: reserves all positions that are left (LEN - position read before)")
                 else:
                     out.append(Ob("SKIP", key, "viol", e.loc(),
                                   "early_exit of %s reserves only %s positions, not the whole remaining source" % (
@@ -91,7 +99,14 @@ def rule_skip(env, shared):
                 if e.kind == "atomic" and e.info["op"] in ("store", "swap") and R.classify(e.info["place"]) == ("pos", adt):
                     ko = "SKIP.order|%s" % r["name"]
                     tb = e.info["top_bb"]
-                    if any(fb != tb and b.dominates(fb, tb) for fb in flag_bbs):
+                    ordn = e.info["orderings"][0] if e.info["orderings"] else None
+                    if any(fb != tb and b.dominates(fb, tb) for fb in flag_bbs) and ordn not in ("Release", "AcqRel", "SeqCst"):
+                        out.append(Ob("SKIP.order", ko, "viol", e.loc(),
+                                      "early_exit of %s moves the ticket counter with a %s store: the end flag stored before "
+                                      "it is not published with it, so a pull that reserves a wrapped-around ticket "
+                                      "afterwards may still read the flag as false and enter the wrapped iterator next to "
+                                      "the current holder; the store must be Release or stronger" % (r["name"], ordn)))
+                    elif any(fb != tb and b.dominates(fb, tb) for fb in flag_bbs):
                         out.append(Ob("SKIP.order", ko, "ok", e.loc(), "the end flag is set before the ticket counter is moved",
                                       True))
                     else:
@@ -100,6 +115,24 @@ def rule_skip(env, shared):
                                       "reserve in between receive the last ticket and, after the wrap, ticket 0 again; the "
                                       "second one passes `ticket == now-serving` with the flag still false and enters the "
                                       "wrapped iterator next to the current holder of ticket 0" % r["name"]))
+        if r["kind"] == "ticket":
+            # ... and every reservation of a ticket reads the counter with Acquire or stronger (it is the read side of the
+            # publication above)
+            for u in m.units:
+                if m.base_impl(u.world) != adt or u.world.get("inner"):
+                    continue
+                for e in u.events:
+                    if e.kind == "atomic" and e.info["op"] == "fetch_add" and R.classify(e.info["place"]) == ("pos", adt):
+                        ka = "SKIP.order|%s|reserve(%s)" % (r["name"], u.kind)
+                        if any(o.key == ka for o in out):
+                            continue
+                        ordn = e.info["orderings"][0] if e.info["orderings"] else None
+                        okk = ordn in ("Acquire", "AcqRel", "SeqCst")
+                        out.append(Ob("SKIP.order", ka, "ok" if okk else "viol", e.loc(),
+                                      "ticket reservation is %s" % ordn if okk else
+                                      "the %s pull of %s reserves its ticket with a %s read-modify-write: it does not acquire "
+                                      "what skip_to_end published before moving the counter (the end flag), so a "
+                                      "wrapped-around ticket can be admitted after skip_to_end" % (u.kind, r["name"], ordn)))
         if good is None:
             out.append(Ob("SKIP", key, "viol", b.file_line(),
                           "early_exit of %s neither moves the position counter to/after LEN nor sets the end flag: "
